@@ -6,7 +6,7 @@ from .state import State, dtype, key_alloc, key_card
 
 I = z3.IntSort()
 
-PURE_BUILTINS = {'len', 'range', 'isinstance', 'int', 'str', 'bool', 'min', 'max', 'abs', 'all', 'any', 'divmod', 'tuple',
+PURE_BUILTINS = {'repr', 'len', 'range', 'isinstance', 'int', 'str', 'bool', 'min', 'max', 'abs', 'all', 'any', 'divmod', 'tuple',
                  'old', 'implies', 'fresh', 'seq', 'dom', 'unchanged', 'type', 'iff', 'card', 'content', 'ite', 'is_none', 'val', 'prefix', 'cast', 'upd', 'elements', 'elements_if'}
 STR_METHODS = {'isupper': BOOL, 'islower': BOOL, 'upper': STR, 'lower': STR, 'startswith': BOOL, 'endswith': BOOL,
                'count': INT, 'isidentifier': BOOL, 'isdigit': BOOL, 'strip': STR, 'lstrip': STR, 'rstrip': STR,
@@ -37,8 +37,7 @@ class CallMixin:
     # ------------------------------------------------------------------ dispatcher
     def ev_Call(self, e, st):
         f = e.func
-        if e.keywords and any(k.arg is None for k in e.keywords):
-            _unsup('**kwargs call', e)
+
         if isinstance(f, ast.Name):
             name = f.id
             if name in st.env and not isinstance(st.env[name], SeqV) and st.env[name].ty.kind in ('any', 'obj', 'opt'):
@@ -114,7 +113,8 @@ class CallMixin:
             _unsup('*args call', e)
         for vs, s in self.ev_many(exprs, st):
             pos = vs[:len(e.args)]
-            kw = {k.arg: v for k, v in zip(e.keywords, vs[len(e.args):])}
+            # f(**d): the mapping is handed to the callee's `kwargs` parameter as a whole
+            kw = {(k.arg if k.arg is not None else 'kwargs'): v for k, v in zip(e.keywords, vs[len(e.args):])}
             yield (pos, kw), s
 
     # ------------------------------------------------------------------ builtins
@@ -217,6 +217,13 @@ class CallMixin:
             else:
                 f = z3.Function('str_of_' + sort_name(sort_of(v.ty)), sort_of(v.ty), z3.StringSort())
                 yield SV(STR, f(v.z)), s
+
+    def bi_repr(self, e, st):
+        for v, s in self.ev(e.args[0], st):
+            if isinstance(v, SeqV):
+                _unsup('repr of a sequence', e)
+            f = z3.Function('repr_' + sort_name(sort_of(v.ty)), sort_of(v.ty), z3.StringSort())
+            yield SV(STR, f(v.z)), s
 
     def bi_min(self, e, st):
         for vs, s in self.ev_many(e.args, st):
@@ -426,6 +433,9 @@ class CallMixin:
                 else:
                     yield from self.apply_contract(c, [recv] + vs, kw, s, e)
             return
+        if k == 'str' and attr == 'join' and len(e.args) == 1 and isinstance(e.args[0], (ast.GeneratorExp, ast.ListComp)):
+            yield self.join_comprehension(recv, e, st), st
+            return
         if k == 'str' and attr in STR_METHODS:
             for (vs, kw), s in self.ev_args(e, st):
                 yield self.str_method(recv, attr, vs, s, e), s
@@ -459,6 +469,53 @@ class CallMixin:
         if attr == 'count':
             st.assume(res.z >= 0)
         return res
+
+    def join_comprehension(self, sep, e, st):
+        """sep.join(f(x) for x in xs if c(x)) as a left fold: J(0) = '', J(i+1) = J(i) [+ sep] + f(xs[i]) if c(xs[i]) else J(i).
+        The contract names the closed form of the partial result after _i elements (ghost 'join:<ordinal>'); it is proved by
+        induction (join-init / join-step obligations) and then used for the result."""
+        gexp = e.args[0]
+        if len(gexp.generators) != 1:
+            _unsup('nested comprehension in join', e)
+        sepz = z3.simplify(sep.z)
+        if not (z3.is_string_value(sepz) and sepz.as_string() == ''):
+            _unsup('join with a non-empty separator', e)
+        gen = gexp.generators[0]
+        vars_, rng, env, sq = self.bind_comprehension(gen, st)
+        if sq is None:
+            _unsup('join over a non-sequence', e)
+        seq, i = sq
+        s2 = st.copy()
+        s2.env.update(env)
+        was = self.specmode
+        self.specmode += 1
+        try:
+            conds = [self.truthy(self.ev1(c, s2), s2) for c in gen.ifs]
+            elt = self.ev1(gexp.elt, s2)
+        finally:
+            self.specmode = was
+        if elt.ty.kind != 'str':
+            _unsup('join of non-strings', e)
+        key = 'join:' + self.call_ordinal(e)
+        closed = self.c.ghost.get(key)
+        if closed is None:
+            _unsup('join over a comprehension needs the closed form of its partial results (ghost %r)' % key, e)
+        term = z3.If(z3.And(*conds), elt.z, z3.StringVal('')) if conds else elt.z
+
+        def closed_at(k, state):
+            sc = state.copy()
+            sc.env['_i'] = SV(INT, k)
+            v, sides = self.spec(closed, sc)
+            return v.z, sides
+        c0, sd0 = closed_at(z3.IntVal(0), st)
+        self.oblige('join-init.' + self.label('join', e), st, c0 == z3.StringVal(''), e, kind='inv-init', hyps_extra=sd0, text='%s at _i = 0 is empty' % closed)
+        ci, sdi = closed_at(i, st)
+        cn, sdn = closed_at(i + 1, st)
+        self.oblige('join-step.' + self.label('join', e), st, z3.Implies(rng, cn == z3.Concat(ci, term)), e, kind='inv-keep', hyps_extra=sdi + sdn,
+                    text='%s at _i + 1 is the value at _i followed by the element (if selected)' % closed)
+        res, sdr = closed_at(seq.n, st)
+        st.assume(*sdr)
+        return SV(STR, res)
 
     # list
     def m_list_append(self, recv, e, st):
@@ -535,7 +592,9 @@ class CallMixin:
     def bi_set(self, e, st):
         if e.args:
             for v, s in self.ev(e.args[0], st):
-                if not isinstance(v, SeqV) and v.ty.kind == 'set':
+                if not isinstance(v, SeqV) and v.ty.kind == 'dict':
+                    yield SV(TSet(v.ty.args[0]), self.keyset(v, s)), s
+                elif not isinstance(v, SeqV) and v.ty.kind == 'set':
                     r = s.new_ref('set', -3)
                     es = sort_of(v.ty.args[0])
                     s.sset(r, es, s.smem(v.z, es))
